@@ -41,7 +41,10 @@ def add_incompatibility_constraint(graph: nx.MultiDiGraph, nodes: List[DSGNode],
 
 def _get_canonical_edge(edge: EdgeTuple) -> EdgeTuple:
     source_node, target_node = sorted(edge[:2], key=lambda n: getattr(n, 'name', str(hash(n))))
-    return source_node, target_node, 0, edge[-1]
+
+    # Use a dedicated edge key: with key 0 the edge would replace (the data of) an existing edge between the same two
+    # nodes when it is added to a graph, e.g. the derivation edge between two incompatible nodes
+    return source_node, target_node, 'incompatibility', edge[-1]
 
 
 def get_confirmed_incompatibility_edges(graph: nx.MultiDiGraph, start_nodes: Set[DSGNode]) -> Set[EdgeTuple]:
